@@ -15,7 +15,7 @@ Definition src_permits (p : policy) (target : bytes) (via : list bytes) : bool :
   | PSameHost => src_permits_same_host target via
   | PAllowedHost hs => src_permits_allowed_host hs target via
   | PAllowedDomain hs => src_permits_allowed_domain hs target via
-  | PAlwaysCopy _ _ => src_permits_always_copy target via
+  | PAlwaysCopy _ => src_permits_always_copy target via
   | PNil => true                        (* `if f == nil { continue }` - see set_policy_skips_nil *)
   end.
 
